@@ -418,7 +418,7 @@ func runC07(e *Env) {
 			sweeps = append(sweeps, c)
 		}
 	}
-	bpms := []uint64{1, 2, 3, 4, 5, 7, 60, 100, 101, 119, 255, 256, 257, 300, 999, 1000, 4096, 65535, 65536, 1000000, 16777215, 16777216, 59999999, 60000000, 60000001, 119999999, 120000000, 120000001, 1 << 31, 1<<32 - 1, 1 << 32, 1<<63 - 1, 1 << 63, 1<<64 - 1}
+	bpms := []uint64{1, 2, 3, 4, 5, 7, 60, 100, 101, 119, 255, 256, 257, 300, 512, 999, 1000, 1536, 2560, 4096, 65535, 65536, 1000000, 16777215, 16777216, 59999999, 60000000, 60000001, 119999999, 120000000, 120000001, 1 << 31, 1<<32 - 1, 1 << 32, 1<<63 - 1, 1 << 63, 1<<64 - 1}
 	for _, b := range bpms {
 		b := b
 		addSweep(func(in *refplay.Inst) { in.BPM = &b })
@@ -472,7 +472,7 @@ func runC07(e *Env) {
 			c07Eval(e, m, &cc, true)
 		}
 	})
-	e.R.AddPart(ev.Part{Name: "value-sweeps", Enumerated: fmt.Sprintf("%d bpm values (1..5, byte/16/24/32/63/64-bit boundaries, 6e7 and 1.2e8 +-1) and %d meters (incl. numerators 256, 257, 300, 65536, 2^32 and denominators 3, 6, 12, 255, 256, 512, 65536, 2^32), 28 keys, 6 dynamics, 17 texts (incl. 127/128/16383/16384/16385 bytes: the length is a variable-length quantity) x {txt,lic,mrk}; each at instance 0 and at instance 2 after a rest, in-process and through the binary, the bpm and meter values also as --bpm/--meter; a value no MIDI file can state (tempo outside 1..2^24-1 us, numerator > 255, denominator not a power of two <= 128) must be refused", len(bpms), len(meters)), Executions: int64(len(sweeps)), Exhaustive: true})
+	e.R.AddPart(ev.Part{Name: "value-sweeps", Enumerated: fmt.Sprintf("%d bpm values (1..5, byte/16/24/32/63/64-bit boundaries, 6e7 and 1.2e8 +-1, 512/1536/2560 where 60e6/bpm ends in .5) and %d meters (incl. numerators 256, 257, 300, 65536, 2^32 and denominators 3, 6, 12, 255, 256, 512, 65536, 2^32), 28 keys, 6 dynamics, 17 texts (incl. 127/128/16383/16384/16385 bytes: the length is a variable-length quantity) x {txt,lic,mrk}; each at instance 0 and at instance 2 after a rest, in-process and through the binary, the bpm and meter values also as --bpm/--meter; a value no MIDI file can state (tempo outside 1..2^24-1 us, numerator > 255, denominator not a power of two <= 128) must be refused", len(bpms), len(meters)), Executions: int64(len(sweeps)), Exhaustive: true})
 
 	// (3) flags x documents through the real binary
 	var fcases []playCase
